@@ -1,14 +1,16 @@
 #![no_main]
 //! libFuzzer target for engine B (observables). VERIF_PROP selects the property; C16 runs the
-//! case on both flavours and compares.
-use std::sync::OnceLock;
+//! case on both flavours and compares. Panic handling as in the `vec` target.
+use std::sync::{Once, OnceLock};
 
-use evv::{common::{Prop, Stop}, decode, engine_obs::{self, Fl}};
+use evv::{campaign::guarded, common::{install_quiet_panic_hook, Prop, Stop}, decode, engine_obs::{self, Fl, ObsCase}};
 use libfuzzer_sys::fuzz_target;
 
 static P: OnceLock<Prop> = OnceLock::new();
+static HOOK: Once = Once::new();
 
 fuzz_target!(|data: &[u8]| {
+    HOOK.call_once(install_quiet_panic_hook);
     let prop = *P.get_or_init(|| std::env::var("VERIF_PROP").ok().and_then(|s| Prop::parse(&s)).unwrap_or(Prop::C01));
     let fl = match prop {
         Prop::C16 => Fl::Both,
@@ -16,9 +18,15 @@ fuzz_target!(|data: &[u8]| {
         _ => Fl::Sync,
     };
     let case = decode::obs_case(data, fl);
-    match engine_obs::run(&case, prop) {
-        Err(Stop::Violation(m)) => panic!("VIOLATION {}: {m}", prop.name()),
-        Err(Stop::Internal(m)) => panic!("INTERNAL: {m}"),
+    match guarded(&case, &|c: &ObsCase| engine_obs::run(c, prop)) {
+        Err(Stop::Violation(m)) => {
+            eprintln!("VIOLATION {}: {m}", prop.name());
+            std::process::abort();
+        }
+        Err(Stop::Internal(m)) => {
+            eprintln!("INTERNAL: {m}");
+            std::process::abort();
+        }
         _ => {}
     }
 });
